@@ -414,8 +414,14 @@ Fixpoint both_hist (h k : nat) (s : state) (l : hist) : list N :=
        end) ++
       both_hist h (S k) s' r
   end.
+(* code 90 + reason at the first operation outside the C02 fragment *)
+Definition unclean_code (h : nat) (l : hist) : list N :=
+  match first_unclean 0 state0 (map sc_op l) with
+  | Some (k, r) => [code h k (90 + N.to_nat r)]
+  | None => []
+  end.
 Definition both_mismatches (cases : list hist) : list N :=
-  mism_from (fun i h => both_hist i 0 state0 h) 0 cases.
+  mism_from (fun i h => both_hist i 0 state0 h ++ unclean_code i h) 0 cases.
 
 (* pass 2 (diagnosis of a failing step): operations up to the step, the dumped
    state (enc_state encoding) and the reported sections in full. *)
